@@ -3,4 +3,5 @@ NEXT GNext
 CONSTANT Fams = {4}
 CONSTANT NRand = 100
 CONSTANT RandKind = "scalar"
+CONSTANT NChunks = 12
 CHECK_DEADLOCK FALSE
